@@ -3,6 +3,9 @@
 use nfv::engine::{install_quiet_panic_hook, Case, Ctx, Verdict};
 use nfv::props;
 
+#[global_allocator]
+static A: nfv::alloc::Counting = nfv::alloc::Counting;
+
 fn main() {
     let args: Vec<String> = std::env::args().collect();
     if args.len() < 2 {
